@@ -295,8 +295,23 @@ def r12_struct(src, keep=None, drop=None):
     return f"pub {head.strip()} {{\n{body}}}\n", dropped
 
 
-def r12_enum(src):
-    return "pub " + re.sub(r"^\s*pub(\([^)]*\))?\s+", "", strip_attrs_and_docs(src)).strip() + "\n"
+def r12_enum(src, keep=None):
+    """keep: optional keep-list of VARIANT names (R12 for enums). A function that mentions a dropped variant fails to
+    type-check -> exit 2, so a dropped variant can never hide an effect. Returns text (keep=None) or (text, dropped)."""
+    text = "pub " + re.sub(r"^\s*pub(\([^)]*\))?\s+", "", strip_attrs_and_docs(src)).strip() + "\n"
+    if keep is None:
+        return text
+    st = sig(lex(text))
+    bi = next(i for i, t in enumerate(st) if t.text == "{")
+    be = match_close(st, bi)
+    kept, dropped = [], []
+    for a, b in _split_top(st, bi + 1, be):
+        if a >= b:
+            continue
+        name = st[a].text
+        (kept if name in keep else dropped).append((name, text[st[a].start:st[b - 1].end]))
+    body = "".join(f"    {v},\n" for _, v in kept)
+    return text[:st[bi].start] + "{\n" + body + "}\n", [n for n, _ in dropped]
 
 
 # --------------------------------------------------------------------------------------
